@@ -177,6 +177,7 @@ type Obligation struct {
 	Discharged int    `json:"discharged_unsat"`
 	Violated   int    `json:"violated_sat"`
 	Unknown    int    `json:"unknown"`
+	SolverS    float64 `json:"solver_s"`
 }
 
 type Violation struct {
@@ -263,7 +264,11 @@ func (in *Interp) checkObligation(kind, label string, c *Term, msg string) {
 		return
 	}
 	want := in.tapeTerms()
+	tq := time.Now()
 	r, vals := in.ctx.Check(in.ts.Not(c), in.ctx.assertTO, want)
+	h.mu.Lock()
+	o.SolverS += time.Since(tq).Seconds()
+	h.mu.Unlock()
 	switch r {
 	case Unsat:
 		h.mu.Lock()
@@ -285,6 +290,9 @@ func (in *Interp) checkObligation(kind, label string, c *Term, msg string) {
 	}
 	if c.IsFalse() {
 		panic(pathEnd{"stop", "assertion false on every input of this path"})
+	}
+	if r == Unsat {
+		return // implied by the path condition: adding it would only burden later queries
 	}
 	if r == Sat {
 		rr, _ := in.ctx.Check(c, in.ctx.branchTO, nil)
